@@ -44,10 +44,15 @@ def run(chk):
     # box histories of the positional trackers (and the wasted-track conversion)
     plans = [("hist-d3", dict(depth=3, MaxIdle=1, H=1, Metric="maha", Thr=1000, MaxDets=1)),
              ("hist-sim", dict(depth=60, MaxIdle=1, H=3, sim=6, simulate={"num": 6 if quick else 40, "depth": 61}))]
+    # the same through the batch API (its own alphabet: a batch cannot express a scene without detections)
+    plans.append(("hist-batch-sim", dict(depth=30, kind="batch", MaxIdle=1, H=3, MaxDets=1, sim=6, simulate={"num": 4 if quick else 30, "depth": 31})))
     for name, kw in plans:
         r, c = tc.generate(chk, name, **kw)
-        # (history length 3 with idle limit 1 in the simulated plan: the two options are different things in every tracker)
-        for kind in ((("sort", "batchsort") if name == "hist-sim" else ("sort",)) if quick else ("sort", "batchsort", "visual")):
+        if kw.get("kind") == "batch":
+            for kind in (("batchsort",) if quick else ("batchsort", "batchvisual")):
+                tc.replay(chk, name, r, c, kind, 2, "C13", "nt_C13")
+            continue
+        for kind in (("sort",) if quick else ("sort", "visual")):
             tc.replay(chk, name, r, c, kind, 2, "C13", "nt_C13")
     # free world (R2): random look-alike objects with long lives; TLC re-derives the admissible galleries of every call from
     # the logged ones (spec/tracker/VisualTrace.tla: GalleryAllowed, reported count = stored count, nothing touches a
